@@ -94,6 +94,7 @@ type Frame struct {
 	bind    []Value // free-variable bindings (closures)
 	// range-over-map iteration state: Range instr -> (keys array, n, pos)
 	iters     map[ssa.Value]*iterState
+	unrolled  map[int]int // loop head -> passes executed (constant-trip loops run without a cut)
 	panicking bool
 	recovered bool      // a deferred call has recovered this frame's panic: run the remaining defers, then return through the Recover block
 	seq       *seqCalls // statically known closures being run "concurrently" (PerformConcurrently)
@@ -136,6 +137,12 @@ func (f *Frame) clone() *Frame {
 	if f.seq != nil {
 		c := *f.seq
 		g.seq = &c
+	}
+	if f.unrolled != nil {
+		g.unrolled = make(map[int]int, len(f.unrolled))
+		for k, v := range f.unrolled {
+			g.unrolled[k] = v
+		}
 	}
 	g.iters = make(map[ssa.Value]*iterState, len(f.iters))
 	for k, v := range f.iters {
